@@ -40,21 +40,29 @@ T = [
  ("S6","C16-2","C16","missed","caught","C16 quick (after strengthening)","DDL ignores a map given per execute()/statement: added the where-the-map-is-given dimension"),
  ("S6","C09-1","C09","caught","caught","C09 quick","Interval bind: timedelta(0) bound as NULL"),
  ("S6","C09-2","C09","missed","missed","-","Label._make_proxy drops an explicit label type_ through subqueries: C09's shapes label columns without overriding the type"),
- ("S7","C10-1","C10","missed","pending","-","closed-ness after one() on the fully buffered strategy: oracle accepted either outcome (extension requested)"),
- ("S7","C10-2","C10","missed","pending","-","unique() applied after rows were fetched (memoized getters): extension requested"),
+ ("S7","C10-1","C10","missed","caught","C10 quick (after extension)","closed-ness after one() on the fully buffered strategy: the oracle accepted either outcome; closedness is now an observable wherever the docstrings are explicit"),
+ ("S7","C10-2","C10","missed","caught","C10 quick (after extension)","unique() applied after rows were fetched: late-filter configurations added (they also exposed the genuine ScalarResult/MappingResult.unique defect, fix f2c128d)"),
  ("S7","C12-1","C12","caught","caught","C12 quick","last batch size lenparams % batch_size"),
  ("S7","C12-2","C12","missed","missed","-","Table._sentinel_column_characteristics for negative-increment sequences (sql/schema.py): outside the batching kernel C12 claims"),
- ("S7","C28-1","C28","missed","pending","-","late sub-sub-class (mro walk): hierarchy has two levels (extension requested)"),
- ("S7","C28-2","C28","missed","pending","-","second-hand propagated collections: extension requested"),
+ ("S7","C28-1","C28","missed","caught","C28 quick (after extension)","late sub-sub-class (mro walk): three-level late hierarchy harness added"),
+ ("S7","C28-2","C28","missed","caught","C28 quick (after extension)","second-hand propagated collections: dispatch._update chains added"),
  ("S8","C25-1","C25","missed","caught","C25 quick (after extension)","stale finalizer guard weakened: needs detach / drop+gc ops (added by the C25 extension; mutant of the same guard caught)"),
  ("S8","C25-2","C25","missed","missed","-","_dec_overflow before close(): only observable under a thread interleaving; thread schedules are outside the claim (sequential inductive step)"),
  ("S8","C26-1","C26","missed","caught","C26 quick (after extension)","`except:` narrowed to `except Exception:` around creation: needs a BaseException fault kind (added)"),
  ("S8","C26-2","C26","missed","caught","C26 quick (after extension)","Pool._invalidate skipping the timestamp for record-less connections: needs detach + invalidate op (added)"),
  ("S9","C36-1","C36","missed","missed","-","InstanceState.__getstate__ not pickling `modified`: only visible at flush after a pickle round trip; flush is outside C36"),
- ("S9","C36-2","C36","missed","pending","-","dict popitem() as first mutation: extension requested"),
- ("S9","C37-1","C37","missed","pending","-","del obj.collection iterating the live list: extension requested"),
- ("S9","C37-2","C37","missed by C37","caught","C38 quick","dict pop(key, default) firing no remove event: C38's dict harness (pop_default)"),
+ ("S9","C36-2","C36","missed","caught","C36 quick (after extension)","dict popitem() as first mutation: dict/list/set pop/popitem/clear/setdefault/update mutators added"),
+ ("S9","C37-1","C37","missed","caught","C37 quick (after extension)","del obj.collection iterating the live list: `delattr` step added"),
+ ("S9","C37-2","C37","missed by C37","caught","C38 quick, C37 quick (after extension)","dict pop(key, default) firing no remove event: C38's dict harness (pop_default); C37 gained a keyed-dict relationship kind"),
  ("S9","C43-1","C43","caught","caught","C43 quick","evaluator NOT(NULL) = True"),
+ ("S10","C05-1","C05","missed","missed","-","MySQL backslash doubling applied before the type's literal processor: only visible for types that introduce backslashes themselves (TypeDecorator / Enum values); C05 renders plain String types"),
+ ("S10","C05-2","C05","missed by C05","caught","C01 quick (after strengthening)","NOT LIKE renders its ESCAPE character without literal quoting: added LIKE/NOT LIKE with escape=\"'\" to C01's operator set (unterminated literal = parse error under the backend grammar)"),
+ ("S10","C06-1","C06","caught","caught","C06 quick","names starting with the digit 9 left unquoted"),
+ ("S10","C06-2","C06","missed","missed","-","DefaultDialect.normalize_name (reflection-side case normalisation for Oracle-style backends): outside the quoting kernel C06 claims"),
+ ("S10","C20-1","C20","caught","caught","C20 quick","database quoted with '@' as safe character"),
+ ("S10","C20-2","C20","caught","caught","C20 quick","_parse_url strips the URL string"),
+ ("S10","C21-1","C21","caught","caught","C21 quick","max_identifier_length wins over max_constraint_name_length"),
+ ("S10","C21-2","C21","missed by C21","caught","C04 quick (after strengthening)","explicit bind name equal to a generated anonymous name silently merged: added the anon_clash shape to C04 (delivery differential)"),
  ("S9","C43-2","C43","missed","missed","-","per-object expire set built from evaluated keys (SET clause with DB-only expressions, 2nd+ matched object): C43 checks the WHERE criteria on one row; SET-clause synchronisation over several objects is outside its bound"),
 ]
 
